@@ -6,7 +6,7 @@ from cvbase import *
 ID = "C16"
 PROPS = "C16"
 RULE = ("every offending header form (white space before the name: SP/HTAB, obsolete folding after another header; inside the "
-        "name; between name and colon) on framing-relevant and ordinary names, and every Content-Length value class (empty, "
+        "name; between name and colon; a line of blanks only, last or in the middle of the head) on framing-relevant and ordinary names, and every Content-Length value class (empty, "
         "signed, non-digit, list, blank-separated, hex, decimal point, >= 2^64, 23 digits) with and without Transfer-Encoding, at "
         "every position of pipelines of 1..3, each followed by a would-be smuggled request; non-trivial = all; distinct = lines")
 ASSUMPTIONS = ["the client half-closes after sending; Unix sockets for bulk, a TCP sample"]
@@ -16,6 +16,9 @@ for name, val in (("Content-Length", "5"), ("Transfer-Encoding", "chunked"), ("X
     WS_FORMS += [(" %s: %s" % (name, val), "ws-before"), ("\t%s: %s" % (name, val), "ws-before"),
                  ("%s : %s" % (name, val), "ws-before-colon"), ("%s\t: %s" % (name, val), "ws-before-colon"),
                  ("%s %s: %s" % (name[:3], name[3:], val), "ws-inside"), ("%s\t%s: %s" % (name[:1], name[1:], val), "ws-inside")]
+# a line of blanks only: an empty obsolete-folding continuation, never the end of the head
+WS_FORMS += [(" ", "ws-only"), ("\t", "ws-only"), ("  \t ", "ws-only"),
+             (" \r\nContent-Length: 5", "ws-only-middle"), ("\t\r\nHost: h\r\nX-Last: z", "ws-only-middle")]
 CL_VALUES = [("", "empty"), ("+5", "signed"), ("-5", "signed"), ("5, 5", "list"), ("5,5", "list"), ("5 5", "blank"), ("0x5", "hex"),
              ("5.0", "point"), ("five", "nondigit"), ("5a", "nondigit"), ("18446744073709551616", "overflow"),
              ("99999999999999999999999", "overflow"), ("+0", "signed"), ("１", "nondigit")]
@@ -58,6 +61,9 @@ def build(rng, n, k, bad, kind, transport="u"):
 def all_bad():
     for form, kind in WS_FORMS:
         yield offending(form, kind, "w"), kind
+        if kind.startswith("ws-only"):
+            # directly behind the request line
+            yield ("GET /badfirst HTTP/1.1\r\n%s\r\nHost: h\r\n\r\n" % form).encode("latin-1"), kind + "-first"
     for v, kind in CL_VALUES:
         try:
             vb = v.encode("latin-1")
